@@ -25,16 +25,16 @@
 #include <stdexcept>
 
 #ifndef NDEBUG
+    // Not wrapped in a loop: the statement may be a `continue' or a `break'
+    // meant for the loop (or switch) the assertion is in.
     #define PSY_ASSERT_3(COND_EXPR, STMT, MSG) \
-        do { \
-            if (COND_EXPR) {} \
-            else { \
-                std::cout << "[ASSERT] at " \
-                          << __FILE__ << ":" << __LINE__ << " " \
-                          << MSG << std::endl; \
-                STMT; \
-            } \
-        } while (0)
+        if (COND_EXPR) {} \
+        else { \
+            std::cout << "[ASSERT] at " \
+                      << __FILE__ << ":" << __LINE__ << " " \
+                      << MSG << std::endl; \
+            STMT; \
+        }
     #define PSY_ASSERT_2(COND_EXPR, STMT) PSY_ASSERT_3(COND_EXPR, STMT, "<empty message>")
     #define PSY_ASSERT_1(COND_EXPR) PSY_ASSERT_3(COND_EXPR, {}, "<empty message>")
     #define PSY_ASSERT_FAIL \
@@ -53,12 +53,10 @@
     // assertion is what keeps the code that follows from using a null or
     // otherwise invalid value.
     #define PSY_ASSERT_3(COND_EXPR, STMT, MSG) \
-        do { \
-            if (COND_EXPR) {} \
-            else { \
-                STMT; \
-            } \
-        } while (0)
+        if (COND_EXPR) {} \
+        else { \
+            STMT; \
+        }
     #define PSY_ASSERT_2(COND_EXPR, STMT) PSY_ASSERT_3(COND_EXPR, STMT, "")
     #define PSY_ASSERT_1(COND_EXPR)
     #define PSY_ASSERT_FAIL
